@@ -77,9 +77,18 @@ def run(ctx):
                 kind = 'dot'
             elif not tr and mname in ('length', 'length_recip', 'normalize'):
                 kind = 'norm'
+            elif not tr and mname == 'angle_between':
+                kind = 'angle'
+            elif not tr and mname == 'xyz':
+                kind = 'xyz'
             if kind is None:
                 continue
-            r = H.run(it['key'])
+            if kind == 'angle':
+                from harness import Harness
+                from C02 import EXTRA
+                r = Harness(F, {'extra_leaf': EXTRA}).run(it['key'])
+            else:
+                r = H.run(it['key'])
             if r.abort:
                 ctx.unverifiable('R-ALG', cfg, name, 'not analysable: ' + r.abort)
                 continue
@@ -144,6 +153,23 @@ def run(ctx):
                     if lanes is None or not S.eq(alg.nf(lanes[i]), e):
                         bad = 'component %s is not the component-wise operation' % 'xyzw'[i]
                         break
+            elif kind == 'xyz':
+                kres, oty, val = result_of(F, r, body)
+                lanes = value_lanes(F, val, oty) if val is not None and not isinstance(val, tm.T) else None
+                if lanes is None or len(lanes) != 3 or any(l is not a for l, a in zip(lanes, views[0].lanes[:3])):
+                    bad = 'xyz() is not the vector part (x, y, z) of the quaternion'
+            elif kind == 'angle':
+                # the angle of the rotation taking self to rhs: 2 acos(|self . rhs|)
+                p2 = [alg.nf(a) for a in views[1].lanes]
+                g = r.ret
+                ac = []
+                if isinstance(g, tm.T) and g.op == 'fmul' and any(tm.is_const(x) and tm.f_of(x) == 2.0 for x in g.args):
+                    ac = [x for x in g.args if not tm.is_const(x)]
+                elif isinstance(g, tm.T) and g.op == 'fadd' and len(g.args) == 2 and g.args[0] is g.args[1]:
+                    ac = [g.args[0]]            # x * 2 is canonicalised to x + x
+                ok = len(ac) == 1 and ac[0].op == 'acos_approx' and ac[0].args[0].op == 'fabs' and S.eq(alg.nf(ac[0].args[0].args[0]), S.dot(q, p2))
+                if not ok:
+                    bad = 'angle_between is not 2 acos(|self . rhs|)'
             elif kind == 'norm':
                 ln = alg.sqrt_r(S.dot(q, q))
                 kres, oty, val = result_of(F, r, body)
